@@ -95,6 +95,9 @@ type exec struct {
 	noAssume bool
 	wfSeen   map[string]bool
 	cmpSeen  map[*Clause]bool
+	// map assignments recorded while an execute closure runs (A-FRESHKEY)
+	recording bool
+	recStores []mapStore
 	frame    *frameInfo
 	fnName   string
 	fnPos    token.Pos
@@ -1033,10 +1036,12 @@ func (x *exec) instr(fr *frame, b *ssa.BasicBlock, in ssa.Instruction, s *State)
 }
 
 func (x *exec) nilCheck(fr *frame, s *State, p *Val, pos token.Pos) {
-	if !x.claims("nil") || p.L == nil || p.L.K != LObj {
+	if p.L == nil || p.L.K != LObj || strings.HasPrefix(p.L.Ref, "(sub!") {
 		return
 	}
-	if strings.HasPrefix(p.L.Ref, "(sub!") {
+	if !x.claims("nil") {
+		// a nil dereference panics: the path ends there (partial correctness; `claims nil` proves there is none)
+		x.assume(s, Not(Eq(p.L.Ref, "0")))
 		return
 	}
 	x.oblig(fr, s, "nil", x.srcText(pos, "deref"), pos, Not(Eq(p.L.Ref, "0")), nil)
